@@ -1082,8 +1082,11 @@ class Simulation:
     def save_results(self, results=None):
         """Save the :attr:`results` to an output file.
 
-        Performs a "safe" overwrite of :attr:`output_filename` by first moving the old file
-        to :attr:`_backup_filename`, then writing the new file, and finally removing the backup.
+        Performs a "safe" overwrite of :attr:`output_filename`: the new file is first written
+        under a temporary name, then the old file is moved to :attr:`_backup_filename`,
+        the new file is moved to :attr:`output_filename`, and finally the backup is removed.
+        In that way, there is a complete file from the previous or the current save on disk
+        at any time, even if the simulation gets killed while saving.
 
         Parameters
         ----------
@@ -1101,21 +1104,26 @@ class Simulation:
             return results  # don't save to disk
         start_time = time.time()
 
-        if output_filename.exists():
-            # keep a single backup, previous backups are overwritten.
-            if backup_filename is not None:
+        if backup_filename is None:
+            if output_filename.exists():
+                output_filename.unlink()  # remove
+            # actually save the results to disk
+            self._save_to_file(results, output_filename)
+        else:
+            # Never write into `output_filename` directly: if we get killed while writing, a partial
+            # `output_filename` can not be distinguished from a complete one later on.
+            tmp_filename = output_filename.with_suffix('.tmp' + output_filename.suffix)
+            # actually save the results to disk
+            self._save_to_file(results, tmp_filename)
+            if output_filename.exists():
+                # keep a single backup, previous backups are overwritten.
                 if backup_filename.exists():
                     backup_filename.unlink()  # remove if exists
                 output_filename.rename(backup_filename)
-            else:
-                output_filename.unlink()  # remove
-
-        # actually save the results to disk
-        self._save_to_file(results, output_filename)
-
-        if backup_filename is not None and backup_filename.exists():
-            # successfully saved, so we can safely remove the old backup
-            backup_filename.unlink()
+            tmp_filename.rename(output_filename)
+            if backup_filename.exists():
+                # successfully saved, so we can safely remove the old backup
+                backup_filename.unlink()
 
         self._last_save = time.time()
         self.logger.info('saving results to disk; took %.1fs', self._last_save - start_time)
